@@ -655,7 +655,7 @@ func (c *wgCtx) check(cfg simrt.Config) ([]mismatch, simrt.Stats, string) {
 		}
 		type res struct {
 			task, idx int
-			out      wgOutcome
+			out       wgOutcome
 		}
 		var results []res
 		fns := make([]func(), len(wl.Tasks))
